@@ -1,10 +1,12 @@
 //! vh – verification harness for jammdb (runtime monitoring).
 //! One sub-command per property plus worker modes; see /verif/DESIGN.md.
 mod c01;
+mod c02;
 mod c03;
 mod c06;
 mod c08;
 mod c10;
+mod c12;
 mod exec;
 mod fileck;
 mod gen;
@@ -15,6 +17,7 @@ mod shape;
 mod shrink;
 mod snap;
 mod util;
+mod vio;
 
 use report::{Ctx, Shard};
 use std::collections::BTreeMap;
@@ -70,12 +73,14 @@ fn main() {
     let (cmd, ctx) = parse_args();
     let shard: Shard = match cmd.as_str() {
         "C01" => c01::run(&ctx, c01::Mode::C01),
+        "C02" => c02::run(&ctx),
         "C03" => c03::run(&ctx),
         "C05" => c01::run(&ctx, c01::Mode::C05),
         "C06" => c06::run(&ctx),
         "C07" => c01::run(&ctx, c01::Mode::C07),
         "C08" => c08::run(&ctx),
         "C10" => c10::run(&ctx),
+        "C12" => c12::run(&ctx),
         _ => usage(),
     };
     shard.write(&ctx.out);
